@@ -540,9 +540,7 @@ func genCase(t *rapid.T) Case {
 		}
 	}
 	if n := len(build(c).spans); n > 0 && rapid.IntRange(0, 9).Draw(t, "twin?") == 0 {
-		// an entry that repeats another entry's ID with another size. A larger size is only put at the
-		// end of the index (elsewhere the unrepaired reader spins for ever, which costs a watchdog
-		// period and a core per case).
+		// an entry that repeats another entry's ID with another size, smaller or larger, anywhere
 		l0 := build(c)
 		of := rapid.IntRange(0, n-1).Draw(t, "twinof")
 		at := of + 1
@@ -554,7 +552,7 @@ func genCase(t *rapid.T) Case {
 		}
 		real, mx := int(l0.spans[of].Len), int(l0.sizes.Max)
 		size := 0
-		if at == n && real < mx && (real == 1 || rapid.Bool().Draw(t, "twinbig")) {
+		if real < mx && (real == 1 || rapid.Bool().Draw(t, "twinbig")) {
 			size = rapid.IntRange(real+1, mx).Draw(t, "twinsize")
 		} else if real > 1 {
 			size = rapid.IntRange(1, real-1).Draw(t, "twinsize")
@@ -783,8 +781,8 @@ func TestEnum(t *testing.T) {
 					continue
 				}
 				for size := 1; size <= int(l.sizes.Max); size++ {
-					if size == int(l.spans[of].Len) || (size > int(l.spans[of].Len) && at != len(l.spans)) {
-						continue // a larger twin in the middle: see genCase
+					if size == int(l.spans[of].Len) {
+						continue
 					}
 					c := base
 					c.Twin = &Twin{At: at, Of: of, Size: size}
